@@ -541,6 +541,7 @@ pub fn run_script(script: &[Ev], t: &mut Tally) -> Option<V> {
 pub fn run(tier: Tier, started: Instant) -> Vec<Part> {
     let depth = tier.pick(5usize, 7usize);
     let mut v = vec![scripts("C19", depth, tier, started)];
+    v.push(decode_on_receive_path(tier));
     v.push(udp_send_faults(tier.pick(3, 4)));
     v.push(udp_smoke());
     v
@@ -559,6 +560,9 @@ enum SeedKind {
 
 #[derive(Clone, Copy, Debug)]
 struct RoundCfg {
+    /// the dead peers have been dead for more than half of a (finite) dead-node grace period: they are
+    /// scheduled for deletion, but still members of the dead set
+    old_dead: bool,
     predicate: bool,
     ready: usize,
     not_ready: usize,
@@ -572,7 +576,7 @@ fn rt_member(kind: usize, i: usize) -> Id {
 }
 
 fn round_cfg_json(c: &RoundCfg) -> Value {
-    json!({"engine":"server","kind":"round-targets","predicate":c.predicate,"ready":c.ready,"not_ready":c.not_ready,"dead":c.dead,"seed":format!("{:?}", c.seed)})
+    json!({"engine":"server","kind":"round-targets","old_dead":c.old_dead,"predicate":c.predicate,"ready":c.ready,"not_ready":c.not_ready,"dead":c.dead,"seed":format!("{:?}", c.seed)})
 }
 
 /// Is the list of SYN destinations of one round explainable as: at most three distinct peers from
@@ -618,7 +622,7 @@ async fn round_targets_case(c: RoundCfg, rounds: usize, t: &mut Tally) -> Result
         gossip_interval: GOSSIP_INTERVAL,
         listen_addr: server_id().addr,
         seed_nodes: seed.iter().map(|a| a.to_string()).collect(),
-        failure_detector_config: FailureDetectorConfig::default(),
+        failure_detector_config: if c.old_dead { FailureDetectorConfig { dead_node_grace_period: Duration::from_secs(60), ..FailureDetectorConfig::default() } } else { FailureDetectorConfig::default() },
         marked_for_deletion_grace_period: Duration::from_secs(3600),
         catchup_callback: None,
         extra_liveness_predicate: if c.predicate { Some(Box::new(|ns| ns.get("READY") == Some("true"))) } else { None },
@@ -628,7 +632,8 @@ async fn round_targets_case(c: RoundCfg, rounds: usize, t: &mut Tally) -> Result
     d.settle().await;
     let src = SocketAddr::from(([127, 0, 0, 1], 10_900));
     // warm-up: four heartbeats one second apart for the live members, a single one for the dead
-    for hb in 1..=4u64 {
+    // (`old_dead`: 35 of them, so that the dead peers are past half of the 60 s grace period)
+    for hb in 1..=(if c.old_dead { 35u64 } else { 4u64 }) {
         let mut digest: Vec<DigestEntry> = ready.iter().chain(not_ready.iter()).map(|id| DigestEntry { id: id.clone(), heartbeat: hb, gc: 0, mv: 0 }).collect();
         if hb == 1 {
             digest.extend(dead.iter().map(|id| DigestEntry { id: id.clone(), heartbeat: 1, gc: 0, mv: 0 }));
@@ -656,6 +661,13 @@ async fn round_targets_case(c: RoundCfg, rounds: usize, t: &mut Tally) -> Result
             let live = g.live_nodes().filter(|i| **i != me).map(|i| i.gossip_advertise_addr).collect();
             let deadset = g.dead_nodes().map(|i| i.gossip_advertise_addr).collect();
             let w = g.live_nodes_watcher().borrow().keys().filter(|i| **i != me).count();
+            if round == 0 && c.old_dead && c.dead > 0 {
+                if g.scheduled_for_deletion_nodes().count() == c.dead {
+                    t.inc("cases_with_dead_peers_scheduled_for_deletion");
+                } else {
+                    t.inc("setup_mismatch");
+                }
+            }
             (peers, live, deadset, w)
         };
         if round == 0 {
@@ -708,12 +720,15 @@ async fn round_targets_case(c: RoundCfg, rounds: usize, t: &mut Tally) -> Result
 pub fn round_targets(tier: Tier) -> Part {
     let mut part = Part::new("server/round-targets");
     let rounds = tier.pick(3usize, 12usize);
-    part.rule = format!("the real gossip server over the scripted transport, with and without an extra liveness predicate (READY == true); membership built through real messages: 0..2 live peers satisfying the predicate, 0..2 live peers not satisfying it, 0..{} dead peers (one heartbeat only); seed: none / an unknown address / a ready peer / a not-ready peer / a dead peer; {rounds} consecutive rounds observed per configuration; oracle, evaluated on the SYN destinations of each round against Chitchat::live_nodes() / dead_nodes() / known members read under the lock just before the round: the destinations split into at most 3 distinct peers of the pool (live peers, or all known peers when none is live) + at most one dead peer + at most one seed; a seed is contacted when no live peer is known; a dead peer is contacted when dead outnumber live; min(3, live) live peers are contacted. The server's own random generator is not scripted here (the `select` engine enumerates the generator's answers on the selection function itself): the oracle holds for every draw, and a wrong pool is exposed deterministically by the configurations in which it forces a destination outside the allowed sets; non-trivial = configurations with live peers hidden by the predicate", tier.pick(4, 5));
+    part.rule = format!("the real gossip server over the scripted transport, with and without an extra liveness predicate (READY == true); membership built through real messages: 0..2 live peers satisfying the predicate, 0..2 live peers not satisfying it, 0..{} dead peers (one heartbeat only); seed: none / an unknown address / a ready peer / a not-ready peer / a dead peer; also with a 60 s dead-node grace period and dead peers that have been dead for more than half of it (scheduled for deletion, still in the dead set); {rounds} consecutive rounds observed per configuration; oracle, evaluated on the SYN destinations of each round against Chitchat::live_nodes() / dead_nodes() / known members read under the lock just before the round: the destinations split into at most 3 distinct peers of the pool (live peers, or all known peers when none is live) + at most one dead peer + at most one seed; a seed is contacted when no live peer is known; a dead peer is contacted when dead outnumber live; min(3, live) live peers are contacted. The server's own random generator is not scripted here (the `select` engine enumerates the generator's answers on the selection function itself): the oracle holds for every draw, and a wrong pool is exposed deterministically by the configurations in which it forces a destination outside the allowed sets; non-trivial = configurations with live peers hidden by the predicate", tier.pick(4, 5));
     let dmax = tier.pick(4usize, 5usize);
     let mut cfgs = vec![];
-    for predicate in [false, true] {
+    for (predicate, old_dead) in [(false, false), (true, false), (false, true)] {
         for ready in 0..=2 {
             for not_ready in 0..=2 {
+                if old_dead && not_ready > 0 {
+                    continue;
+                }
                 for dead in 0..=dmax {
                     for seed in [SeedKind::None, SeedKind::Unknown, SeedKind::Ready, SeedKind::NotReady, SeedKind::Dead] {
                         let exists = match seed {
@@ -723,7 +738,7 @@ pub fn round_targets(tier: Tier) -> Part {
                             _ => true,
                         };
                         if exists {
-                            cfgs.push(RoundCfg { predicate, ready, not_ready, dead, seed });
+                            cfgs.push(RoundCfg { old_dead, predicate, ready, not_ready, dead, seed });
                         }
                     }
                 }
@@ -760,7 +775,7 @@ pub fn round_targets(tier: Tier) -> Part {
             part.notes.push(format!("MACHINERY: {what}"));
             continue;
         }
-        part.violation("C17", format!("{what} [predicate {}, {} ready, {} not ready, {} dead, seed {:?}]", c.predicate, c.ready, c.not_ready, c.dead, c.seed), sig, round_cfg_json(&c));
+        part.violation("C17", format!("{what} [{}predicate {}, {} ready, {} not ready, {} dead, seed {:?}]", if c.old_dead { "dead peers past half of the grace period, " } else { "" }, c.predicate, c.ready, c.not_ready, c.dead, c.seed), sig, round_cfg_json(&c));
     }
     part.states = part.tally.get("configurations");
     part.transitions = part.tally.get("rounds_observed");
@@ -771,7 +786,78 @@ pub fn round_targets(tier: Tier) -> Part {
     }
     part.sample(json!({"predicate": true, "ready": 0, "not_ready": 1, "dead": 3, "seed": "Unknown"}));
     part.require("cases_with_live_peers_hidden_by_the_predicate");
+    part.require("cases_with_dead_peers_scheduled_for_deletion");
     part.require("rounds_observed");
+    part
+}
+
+// ------------------------------------------------------------------ what the receive path decodes (C19)
+
+/// On the real UDP transport a datagram is decoded inside `recv`, i.e. inside the server task: a
+/// decoder panic unwinds the gossip loop. Every short byte string, and every short prefix of valid
+/// messages, must therefore be rejected (or accepted) without panicking.
+pub fn decode_on_receive_path(tier: Tier) -> Part {
+    let mut part = Part::new("server/decode-on-receive-path");
+    part.rule = "ChitchatMessage::deserialize — what UdpSocket::recv runs inside the server task on every datagram — on every byte string of length 0, 1 and 2 (65,793 strings), every 3-byte string starting with the magic number, every 4-byte string starting with magic + protocol version, every 5-byte string starting with a valid 4-byte header (all four message tags), and every prefix of up to 64 bytes (thorough: every prefix) of each message of the C09 corpus; oracle: no panic (an error or a message are both fine); non-trivial = strings the decoder accepts".into();
+    let valid = crate::codec::encode(&Msg::BadCluster);
+    let (m0, m1, ver) = (valid[0], valid[1], valid[2]);
+    let mut inputs: Vec<Vec<u8>> = vec![vec![]];
+    for a in 0..=255u8 {
+        inputs.push(vec![a]);
+        inputs.push(vec![m0, m1, a]);
+        inputs.push(vec![m0, m1, ver, a]);
+        for tag in 0..4u8 {
+            inputs.push(vec![m0, m1, ver, tag, a]);
+        }
+        for b in 0..=255u8 {
+            inputs.push(vec![a, b]);
+        }
+    }
+    let max_prefix = tier.pick(64usize, usize::MAX);
+    for (_, bytes) in crate::engines::hostile::corpus(tier) {
+        for n in 0..bytes.len().min(max_prefix) {
+            inputs.push(bytes[..n].to_vec());
+        }
+    }
+    part.bounds = json!({"inputs": inputs.len()});
+    let results: Vec<(u64, Option<(Vec<u8>, String)>)> = inputs
+        .par_chunks(4096)
+        .map(|chunk| {
+            let mut accepted = 0u64;
+            let mut bad = None;
+            for bytes in chunk {
+                match guarded(|| real::real_decode(bytes)) {
+                    Ok(Ok(_)) => accepted += 1,
+                    Ok(Err(_)) => {}
+                    Err(p) => {
+                        if bad.is_none() {
+                            bad = Some((bytes.clone(), p));
+                        }
+                    }
+                }
+            }
+            (accepted, bad)
+        })
+        .collect();
+    let mut viols: Vec<(Vec<u8>, String)> = vec![];
+    for (a, b) in results {
+        part.tally.add("accepted_by_the_decoder", a);
+        if let Some(x) = b {
+            viols.push(x);
+        }
+    }
+    viols.sort_by_key(|(b, _)| b.len());
+    for (bytes, p) in viols {
+        let hex: String = bytes.iter().map(|b| format!("{b:02x}")).collect();
+        part.violation("C19", format!("a datagram of {} bytes [{hex}] makes the decoder panic inside the server task's receive: {p}", bytes.len()), format!("panic:{}", crate::util::short_loc(&p)), json!({"engine":"server","kind":"decode","hex":hex}));
+    }
+    part.tally.add("inputs", inputs.len() as u64);
+    part.states = inputs.len() as u64;
+    part.transitions = inputs.len() as u64;
+    part.executions = inputs.len() as u64;
+    part.distinct_nontrivial = part.tally.get("accepted_by_the_decoder");
+    part.sample(json!({"hex": format!("{m0:02x}{m1:02x}"), "note": "the two magic bytes alone"}));
+    part.require("accepted_by_the_decoder");
     part
 }
 
@@ -1061,6 +1147,46 @@ pub fn replay(v: &Value) -> Result<(), String> {
             Some(x) => Err(x.what.clone()),
             None => Ok(()),
         };
+    }
+    if v["kind"].as_str() == Some("decode") {
+        let h = v["hex"].as_str().unwrap_or("");
+        let bytes: Vec<u8> = (0..h.len() / 2).filter_map(|i| u8::from_str_radix(&h[2 * i..2 * i + 2], 16).ok()).collect();
+        return match guarded(|| real::real_decode(&bytes)) {
+            Ok(r) => {
+                println!("{} bytes decoded without panic ({})", bytes.len(), if r.is_ok() { "accepted" } else { "rejected" });
+                Ok(())
+            }
+            Err(p) => Err(format!("decoder panicked: {p}")),
+        };
+    }
+    if v["kind"].as_str() == Some("round-targets") {
+        let seed = match v["seed"].as_str().unwrap_or("None") {
+            "Unknown" => SeedKind::Unknown,
+            "Ready" => SeedKind::Ready,
+            "NotReady" => SeedKind::NotReady,
+            "Dead" => SeedKind::Dead,
+            _ => SeedKind::None,
+        };
+        let c = RoundCfg {
+            old_dead: v["old_dead"].as_bool().unwrap_or(false),
+            predicate: v["predicate"].as_bool().unwrap_or(false),
+            ready: v["ready"].as_u64().unwrap_or(0) as usize,
+            not_ready: v["not_ready"].as_u64().unwrap_or(0) as usize,
+            dead: v["dead"].as_u64().unwrap_or(0) as usize,
+            seed,
+        };
+        let mut t = Tally::default();
+        // the server's generator is not scripted: repeat the configuration a few times
+        for _ in 0..5 {
+            let r = guarded(|| crate::clock::block_on(async { round_targets_case(c, 12, &mut t).await }));
+            match r {
+                Ok(Ok(())) => {}
+                Ok(Err((what, _))) => return Err(what),
+                Err(p) => return Err(format!("driver panicked: {p}")),
+            }
+        }
+        println!("configuration ran 5 x 12 rounds; counters {}", t.to_json());
+        return Ok(());
     }
     let script: Vec<Ev> = v["script"].as_array().map(|a| a.iter().filter_map(|e| Ev::from_name(e.as_str()?)).collect()).unwrap_or_default();
     let mut t = Tally::default();
